@@ -487,4 +487,13 @@ def scan_trusted(results):
 
 
 if __name__ == '__main__':
-    sys.exit(main(sys.argv[1:]))
+    try:
+        rc = main(sys.argv[1:])
+    except SystemExit:
+        raise
+    except BaseException as e:   # an internal error of the machinery is tool trouble (exit 2), never a verdict
+        import traceback
+        traceback.print_exc()
+        print('UNDECIDED: internal error of the checking machinery: %r' % (e,))
+        rc = 2
+    sys.exit(rc)
